@@ -393,3 +393,104 @@ def sx_dump(d):
     impls = _sl([_sl([_ss(n), _sl([sx_named(x) for x in ts])]) for n, ts in d["impls"]])
     poss = _sl([_sl([_ss(n), _sl([sx_named(x) for x in ts])]) for n, ts in d["poss"]])
     return _sl([roots, types, dirs, impls, poss])
+
+
+# ------------------------------------------------------------------ extension documents
+def _nt(t):
+    from py_gql.lang import ast as A
+    if isinstance(t, A.ListType):
+        return "(NList %s)" % _nt(t.type)
+    if isinstance(t, A.NonNullType):
+        return "(NNonNull %s)" % _nt(t.type)
+    return "(NNamed %s)" % ser.cstr(t.name.value)
+
+
+def _literal_pv(v):
+    """python value of a default literal, for the literal kinds whose coercion is the identity
+    (Int, Float, String, Boolean, enum names, null, lists of those)"""
+    from py_gql.lang import ast as A
+    if isinstance(v, A.IntValue):
+        return int(v.value)
+    if isinstance(v, A.FloatValue):
+        return float(v.value)
+    if isinstance(v, (A.StringValue, A.EnumValue)):
+        return v.value
+    if isinstance(v, A.BooleanValue):
+        return v.value
+    if isinstance(v, A.NullValue):
+        return None
+    if isinstance(v, A.ListValue):
+        return [_literal_pv(x) for x in v.values]
+    raise TypeError("unsupported default literal %r" % (v,))
+
+
+def _desc(n):
+    return n.description.value if getattr(n, "description", None) else None
+
+
+def _depr(n):
+    for d in n.directives or []:
+        if d.name.value == "deprecated":
+            for a in d.arguments:
+                if a.name.value == "reason":
+                    return a.value.value
+            return "No longer supported"
+    return None
+
+
+def _narg(a):
+    default = "None" if a.default_value is None else "(Some %s)" % ser.cpv(_literal_pv(a.default_value))
+    return "(NArg %s %s %s %s %s)" % (ser.cstr(a.name.value), _nt(a.type), default, _ostr(_desc(a)),
+                                      _dirs(_dirs_of_nodes([a])))
+
+
+def _nfield(f):
+    return "(NField %s %s %s %s %s %s)" % (ser.cstr(f.name.value), _nt(f.type), ser.clist(f.arguments or [], _narg),
+                                           _ostr(_desc(f)), _ostr(_depr(f)), _dirs(_dirs_of_nodes([f])))
+
+
+def _nbody(n):
+    from py_gql.lang import ast as A
+    if isinstance(n, (A.ObjectTypeDefinition, A.ObjectTypeExtension)):
+        return "Kobject", "(NBFields %s %s)" % (ser.clist(n.fields or [], _nfield),
+                                                ser.clist(n.interfaces or [], lambda i: ser.cstr(i.name.value)))
+    if isinstance(n, (A.InterfaceTypeDefinition, A.InterfaceTypeExtension)):
+        return "Kinterface", "(NBFields %s [])" % ser.clist(n.fields or [], _nfield)
+    if isinstance(n, (A.InputObjectTypeDefinition, A.InputObjectTypeExtension)):
+        return "Kinput", "(NBInputs %s)" % ser.clist(n.fields or [], _narg)
+    if isinstance(n, (A.EnumTypeDefinition, A.EnumTypeExtension)):
+        return "Kenum", "(NBValues %s)" % ser.clist(
+            n.values or [], lambda v: "(NValue %s %s %s %s)" % (ser.cstr(v.name.value), _ostr(_desc(v)),
+                                                               _ostr(_depr(v)), _dirs(_dirs_of_nodes([v]))))
+    if isinstance(n, (A.UnionTypeDefinition, A.UnionTypeExtension)):
+        return "Kunion", "(NBUnion %s)" % ser.clist(n.types or [], lambda t: ser.cstr(t.name.value))
+    if isinstance(n, (A.ScalarTypeDefinition, A.ScalarTypeExtension)):
+        return "Kscalar", "NBScalar"
+    raise TypeError(type(n))
+
+
+def c_extdoc(text):
+    """the extension document as the model's [extdoc]"""
+    from py_gql.lang import ast as A, parse
+    doc = parse(text, allow_type_system=True)
+    schema_def, defs, exts, dirs, ops = False, [], [], [], []
+    for n in doc.definitions:
+        if isinstance(n, A.SchemaDefinition):
+            schema_def = True
+        elif isinstance(n, A.SchemaExtension):
+            for o in n.operation_types:
+                ops.append("(%d, %s)" % (["query", "mutation", "subscription"].index(o.operation),
+                                         ser.cstr(o.type.name.value)))
+        elif isinstance(n, A.TypeDefinition):
+            k, b = _nbody(n)
+            defs.append("(NTypeDef %s %s %s %s %s)" % (ser.cstr(n.name.value), k, _ostr(_desc(n)), b,
+                                                       _dirs(_dirs_of_nodes([n]))))
+        elif isinstance(n, A.TypeExtension):
+            k, b = _nbody(n)
+            exts.append("(NTypeExt %s %s %s %s)" % (ser.cstr(n.name.value), k, b, _dirs(_dirs_of_nodes([n]))))
+        elif isinstance(n, A.DirectiveDefinition):
+            dirs.append("(NDirDef %s %s %s %s)" % (ser.cstr(n.name.value), _ostr(_desc(n)),
+                                                   ser.clist(n.locations, lambda l: ser.cstr(l.value)),
+                                                   ser.clist(n.arguments or [], _narg)))
+    return "(MkExt %s [%s] [%s] [%s] [%s])" % (ser.cbool(schema_def), "; ".join(defs), "; ".join(exts),
+                                               "; ".join(dirs), "; ".join(ops))
